@@ -66,6 +66,12 @@ def run(ctx):
             at = [(float(rng.choice([0, 2.5, 4, 4.5, 5])), float(rng.choice([1, 0.1, 10]))) for _ in pos]
             ag = [float(rng.choice([0.5, 1, 2, 3.7])) for _ in pos]
         rfi = F.transform.to_rfi(s, chans, at, ag, None)
+        # the same conversions requested as one scalar position (0 included) and as an empty request: unconverted channels
+        # keep their limits and their events (judged in situ by the conversion monitor)
+        if cid[1] % 3 == 0:
+            core.attempt(F.transform.to_rfi, s, int(pos[0]) if rng.random() < 0.5 else 0)
+            core.attempt(F.transform.to_rfi, s, [])
+            ctx.counters['chk:scalar-and-empty-requests'] += 1
         # --- commutation of the default saturation gate, RFI
         gate_ch = chans if rng.random() < 0.7 else None
         m0 = F.gate.high_low(s, gate_ch, full_output=True).mask
